@@ -142,7 +142,10 @@ func (w *World) runStage(st *Stage) bool {
 				break
 			}
 		}
-		if st.Steps == 0 && ss.steps >= max {
+		// a system whose requests keep growing (say, an annotation that doubles with every
+		// sync) exhausts memory long before the step budget: 200 MB of recorded request
+		// and hook bodies count as the budget, too
+		if st.Steps == 0 && (ss.steps >= max || w.recordedBytes() > 200<<20) {
 			w.budget = true
 			w.budgetAt = st.Name
 			if st.OnBudget != nil {
@@ -352,4 +355,10 @@ func (r *Result) String() string {
 		v = r.Violation.String()
 	}
 	return fmt.Sprintf("steps=%d incs=%d sim=%.1fs log=%s %s", r.Steps, r.Incs, r.SimSeconds, r.LogHash, v)
+}
+
+func (w *World) recordedBytes() int64 {
+	w.mu.Lock()
+	defer w.mu.Unlock()
+	return w.recBytes
 }
